@@ -530,6 +530,23 @@ type Domain interface {
 	Load(e *Engine, st *State, p avPtr, t types.Type) AV
 }
 
+// Comparer is implemented by domains that decide comparisons of their own terms (positions in a symbolic text).
+type Comparer interface {
+	Cmp(e *Engine, st *State, op token.Token, x, y AV) (AV, bool)
+}
+
+// Alt is one of several outcomes of an instruction a domain evaluates itself.
+type Alt struct {
+	St  *State
+	Val AV
+}
+
+// Forker is implemented by domains that evaluate byte reads of strings and string iteration steps themselves, possibly
+// with several outcomes (a stretch of unexamined text is empty, or starts with a byte).
+type Forker interface {
+	Fork(e *Engine, st *State, in ssa.Instruction, ops []AV) ([]Alt, bool)
+}
+
 type Engine struct {
 	P         *Program
 	D         Domain
@@ -544,6 +561,8 @@ type Engine struct {
 	// object (one per symbol) whose loads the domain answers.
 	SymSlices bool
 	symObjs   map[string]*avObj
+	// ForkTables: indexing a sparse constant table with a symbolic index forks over the entries.
+	ForkTables bool
 	// TraceConv: integer conversions are recorded as "conv" events (operand, position).
 	TraceConv bool
 	// Entered, when non-nil, collects the functions whose bodies were interpreted.
@@ -955,11 +974,122 @@ func (e *Engine) instrs(fr *frame, b *ssa.BasicBlock, from int, st *State, outs 
 				return
 			}
 			fr.env[in] = e.eval(fr, st, in)
+		case *ssa.IndexAddr:
+			// a table (an array with a few entries set, built by the package initialiser) indexed by a symbolic value:
+			// one path per entry and one for "none of them"
+			if alts, ok := e.forkTable(fr, st, in); ok {
+				for k, a := range alts {
+					f2 := fr
+					if k < len(alts)-1 {
+						f2 = fr.fork()
+					}
+					f2.env[in] = a.Val
+					e.instrs(f2, b, i+1, a.St, outs)
+				}
+				return
+			}
+			fr.env[in] = e.eval(fr, st, in)
 		case *ssa.Defer, *ssa.Go, *ssa.RunDefers, *ssa.DebugRef, *ssa.Send:
 		case ssa.Value:
+			if fk, ok := e.D.(Forker); ok {
+				var ops []AV
+				switch x := in.(type) {
+				case *ssa.Index:
+					ops = []AV{e.val(fr, st, x.X), e.val(fr, st, x.Index)}
+				case *ssa.Next:
+					ops = []AV{e.val(fr, st, x.Iter)}
+				case *ssa.Slice:
+					ops = []AV{e.val(fr, st, x.X), nil, nil}
+					if x.Low != nil {
+						ops[1] = e.val(fr, st, x.Low)
+					}
+					if x.High != nil {
+						ops[2] = e.val(fr, st, x.High)
+					}
+				}
+				if ops != nil {
+					if alts, handled := fk.Fork(e, st, b.Instrs[i], ops); handled {
+						if len(alts) == 1 {
+							st = alts[0].St
+							fr.env[in] = alts[0].Val
+							continue
+						}
+						for k, a := range alts {
+							f2 := fr
+							if k < len(alts)-1 {
+								f2 = fr.fork()
+							}
+							f2.env[in] = a.Val
+							e.instrs(f2, b, i+1, a.St, outs)
+						}
+						return
+					}
+				}
+			}
 			fr.env[in] = e.eval(fr, st, in)
 		}
 	}
+}
+
+func (e *Engine) forkTable(fr *frame, st *State, in *ssa.IndexAddr) ([]Alt, bool) {
+	if !e.ForkTables {
+		return nil, false
+	}
+	base, ok := e.val(fr, st, in.X).(avPtr)
+	if !ok {
+		return nil, false
+	}
+	sy, ok := e.val(fr, st, in.Index).(avSym)
+	if !ok {
+		return nil, false
+	}
+	if _, known := st.KnownInt(sy); known {
+		return nil, false
+	}
+	var keys []int64
+	for k := range st.heap[base.o] {
+		if !strings.HasPrefix(k, base.path+"[") {
+			continue
+		}
+		rest := k[len(base.path)+1:]
+		i := strings.Index(rest, "]")
+		if i < 0 {
+			continue
+		}
+		var v int64
+		if _, err := fmt.Sscanf(rest[:i], "%d", &v); err != nil || fmt.Sprint(v) != rest[:i] {
+			continue
+		}
+		dup := false
+		for _, x := range keys {
+			dup = dup || x == v
+		}
+		if !dup {
+			keys = append(keys, v)
+		}
+	}
+	if len(keys) == 0 || len(keys) > 64 {
+		return nil, false
+	}
+	sort.Slice(keys, func(a, b int) bool { return keys[a] < keys[b] })
+	var alts []Alt
+	for _, k := range keys {
+		s2 := st.clone()
+		if s2.assume(avCmp{token.EQL, sy, avConst{constant.MakeInt64(k)}}, true, in.Pos()) {
+			alts = append(alts, Alt{s2, avPtr{base.o, fmt.Sprintf("%s[%d]", base.path, k)}})
+		}
+	}
+	s3 := st.clone()
+	feasible := true
+	for _, k := range keys {
+		if !s3.assume(avCmp{token.EQL, sy, avConst{constant.MakeInt64(k)}}, false, in.Pos()) {
+			feasible = false
+		}
+	}
+	if feasible {
+		alts = append(alts, Alt{s3, avPtr{base.o, base.path + "[other]"}})
+	}
+	return alts, len(alts) > 0
 }
 
 func packRes(res []AV, t types.Type) AV {
@@ -1439,6 +1569,31 @@ func (e *Engine) binop(st *State, op token.Token, x, y AV) AV {
 		}
 		return avBin{op, x, y}
 	}
+	if h, ok := e.D.(Comparer); ok && x != nil && y != nil {
+		if v, handled := h.Cmp(e, st, op, x, y); handled {
+			return v
+		}
+	}
+	// b == true, b != false, ... : the boolean itself or its negation
+	if op == token.EQL || op == token.NEQ {
+		bx, by := x, y
+		cb, isC := by.(avConst)
+		if c2, ok := bx.(avConst); ok && !isC {
+			bx, by, cb, isC = y, x, c2, true
+		}
+		if isC && cb.v.Kind() == constant.Bool && bx != nil {
+			switch bx.(type) {
+			case avCmp, avNot, avSym:
+				if constant.BoolVal(cb.v) == (op == token.EQL) {
+					return bx
+				}
+				if n, isNot := bx.(avNot); isNot {
+					return n.x
+				}
+				return avNot{bx}
+			}
+		}
+	}
 	// nil comparisons
 	if op == token.EQL || op == token.NEQ {
 		nx, ny := isDefNil(x), isDefNil(y)
@@ -1626,7 +1781,7 @@ func (pkgInitDom) Call(e *Engine, st *State, site ssa.CallInstruction, callee *s
 	if callee != nil && !e.P.IsRepo(callee) {
 		res := make([]AV, site.Common().Signature().Results().Len())
 		for i := range res {
-			res[i] = avSym{id: e.fresh(), tag: "init:" + callee.Name(), nonNil: true, uniq: true}
+			res[i] = avSym{id: e.fresh(), tag: "init:" + callee.Name(), nonNil: true, uniq: true, payload: avTuple(args)}
 		}
 		return []CallOut{{St: st, Res: res}}, true
 	}
